@@ -110,6 +110,16 @@ func registerIntrinsics(e *Engine) {
 		}
 		return concreteStr(strings.Join(names, ";"))
 	})
+	prim("liveThreadsNow", func(th *Thread, fn *ssa.Function, a []Value) Value {
+		site := strArg(th, a[0])
+		var names []string
+		for _, t := range th.st.threads {
+			if t != th && !t.finished && strings.Contains(t.name, site) {
+				names = append(names, t.name+":"+t.what)
+			}
+		}
+		return concreteStr(strings.Join(names, ";"))
+	})
 	prim("verifRedirect", func(th *Thread, fn *ssa.Function, a []Value) Value {
 		if th.st.redirects == nil {
 			th.st.redirects = map[string]Value{}
@@ -481,6 +491,31 @@ func (th *Thread) anyToBytes(v Value) []Value {
 
 func (th *Thread) errorf(format *StrVal, args Slice) Value {
 	f, _ := format.goString()
+	// several %w verbs: *fmt.wrapErrors{msg, errs}
+	if strings.Count(f, "%w") >= 2 {
+		var errs []Value
+		idx := 0
+		for i := 0; i+1 < len(f); i++ {
+			if f[i] != '%' {
+				continue
+			}
+			if f[i+1] == '%' {
+				i++
+				continue
+			}
+			if f[i+1] == 'w' && idx < len(args.a) {
+				if inner, ok := args.a[idx].(Iface); ok && inner.t != nil {
+					errs = append(errs, inner)
+				}
+			}
+			idx++
+		}
+		p := th.st.eng.P.pkgs["fmt"]
+		t := p.Type("wrapErrors").Type()
+		cell := new(Value)
+		*cell = Struct{concreteStr("<fmt:" + f + ">"), Slice{a: errs}}
+		return Iface{t: types.NewPointer(t), v: cell}
+	}
 	// %w: keep the wrapped error reachable through Unwrap
 	if strings.Contains(f, "%w") {
 		// find the argument matching the %w verb (count verbs before it)
